@@ -4,6 +4,7 @@ R11.1 spans index the user's text: span-producing parsers are handed the caller'
 R11.2 flag plumbing: header key <-> LexFlags field <-> default <-> RegexBuilder setter <-> builder setter agree by name
 R11.4 no integer `as` cast in the library crates narrows (or changes signedness): numeric settings (size_limit, dfa_size_limit,
       nest_limit) travel header(u64) <-> field(usize/u32); a lossy cast puts a value in force that was not the one given
+R11.6 the span recorded for a piece X = line[A..] of a rule line starts at (offset of the line) + A, on every path (A10)
 R11.5 one definition of white space in the lex parser: every trim_*_matches uses `matches_whitespace` (or a literal), and no
       pattern-less trim()/is_whitespace()/split_whitespace() (Unicode White_Space, a different set) is called there
 """
@@ -372,8 +373,67 @@ def r115(facts, res):
     res.floor(R, 'blank-stripping/testing call sites in lrlex::parser', n, 5)
 
 
+def r116(facts, res):
+    """The span recorded for a piece X of the rule line is X's own position in the user's text: when X = line[A..] and the line is
+    src[i..], a span built with X's length starts at i + A (+ a constant) - on every path, whichever way A was computed (after
+    the blank, or after the `<state>` that follows it).  Decided with the linear forms of A10 (len(line[A..]) = len(line) - A)."""
+    R = 'R11.6'
+    import linarith as LA
+    from lrstep import is_call, has_call
+    bs = [b for b in facts.lib_bodies(['lrlex']) if b.name == 'parse_rule' and b.path.startswith('lrlex::parser::')]
+    if len(bs) != 1:
+        res.lost(R, 'lrlex parse_rule not found')
+        return
+    b = bs[0]
+    ps = Walker(b, facts, max_paths=4096).run(0)
+    n = 0
+    bad = []
+    for p in ps:
+        for e in p.events:
+            if e[0] != 'call' or not e[2] or not (e[2]['path'].endswith('span::Span::new')) or len(e[3]) != 2:
+                continue
+            s_, e_ = e[3]
+            lens = [x for x in subterms(e_) if is_call(x, 'len') and x[2]]
+            # X = index(L, RangeFrom(A)) with L a (trimmed) slice of the source starting at i0
+            X = None
+            for ln in lens:
+                t = LA.canon_atom(ln[2][0])
+                if isinstance(t, tuple) and t and t[0] == 'call' and strip_generics(t[1]).split('::')[-1] == 'index' and len(t[2]) == 2 \
+                        and isinstance(t[2][1], tuple) and t[2][1] and t[2][1][0] == 'variant' and t[2][1][3] == 'RangeFrom':
+                    X = t
+            if X is None:
+                continue
+            L, A = LA.canon_atom(X[2][0]), X[2][1][4][0]
+            base = L
+            while isinstance(base, tuple) and base and base[0] == 'call' and strip_generics(base[1]).split('::')[-1] in LA.TRIMS and base[2]:
+                base = LA.canon_atom(base[2][0])
+            if not (isinstance(base, tuple) and base and base[0] == 'call' and strip_generics(base[1]).split('::')[-1] == 'index'
+                    and isinstance(base[2][1], tuple) and base[2][1][0] == 'variant' and base[2][1][3] in ('Range', 'RangeFrom')):
+                continue
+            i0 = base[2][1][4][0]
+            n += 1
+            want0 = LA.lin(i0) + LA.lin(A)
+            d_start = LA.lin(s_) - want0
+            d_end = LA.lin(e_) - want0 - LA.length_of(X)
+            if s_ == e_:
+                # an empty span marking where the piece begins
+                if not (d_start.is_const() and d_start.k == 0):
+                    bad.append('an empty span marking the piece `%s` is placed at %s, but the piece starts at %s + %s (difference: %s)' % (
+                        fmt_term(X)[:60], fmt_term(s_)[:50], fmt_term(i0)[:20], fmt_term(A)[:40], d_start.show()[:60]))
+                continue
+            if not (d_start.is_const() and d_end.is_const() and 0 <= d_start.k <= 1 and -1 <= d_end.k <= 0):
+                bad.append('a span built with the length of the piece `%s` starts at %s, but the piece itself starts at %s + %s in the text (difference: %s)' % (
+                    fmt_term(X)[:60], fmt_term(s_)[:50], fmt_term(i0)[:20], fmt_term(A)[:40], d_start.show()[:60]))
+    if bad:
+        res.bad(R, 'piece-span', loc_of(b), '; '.join(sorted(set(bad))[:2]), {'function': b.path})
+    else:
+        res.ok(R, 'piece-span', loc_of(b), 'every span built from the length of a piece of the rule line starts at that piece\'s own offset (%d span constructions on %d paths)' % (n, len(ps)))
+    res.floor(R, 'span constructions from a piece of the rule line', n, 2)
+
+
 def run(facts, res):
     r114(facts, res)
+    r116(facts, res)
     r115(facts, res)
     r113(facts, res)
     r111(facts, res)
